@@ -46,4 +46,20 @@ theorem NotVal.go (id tag) : NotVal (.go id tag) := by intro _ h; cases h
 theorem NotVal.err (cls) : NotVal (.err cls) := by intro _ h; cases h
 theorem NotVal.timeout : NotVal .timeout := by intro _ h; cases h
 
+/-- a body: the first form is evaluated, its values are dropped, the rest follows in the new store -/
+theorem seq_cons_val {n : Nat} {ρ : Env} {e : Obj} {es : List Obj} {σ σ1 : St} {v : List Obj} (hne : es ≠ [])
+    (h1 : evalN n (.form ρ e) σ = (.val v, σ1)) :
+    evalN (n + 1) (.seq ρ (e :: es)) σ = evalN n (.seq ρ es) σ1 := by
+  cases es with
+  | nil => exact absurd rfl hne
+  | cons x xs => simp [evalN, step, stepSeq, h1, bindV]
+
+/-- a body: a first form that does not return normally ends the body -/
+theorem seq_cons_exit {n : Nat} {ρ : Env} {e : Obj} {es : List Obj} {σ σ1 : St} {o : Out}
+    (h : evalN n (.form ρ e) σ = (o, σ1)) (ho : NotVal o) :
+    evalN (n + 1) (.seq ρ (e :: es)) σ = (o, σ1) := by
+  cases es with
+  | nil => simp [evalN, step, stepSeq, h]
+  | cons x xs => simp [evalN, step, stepSeq, h, bindV_exit _ ho]
+
 end SlipVerif.Eval
